@@ -180,7 +180,7 @@ def c16_scale_leg(rep, seed, tier, stats, server, cachegen):
     of stop 0 (Euclidean geofilter: 0 s walk) and must catch the first trip leaving at or after its time (min_waiting_time 0)."""
     rng = random.Random(seed * 9176 + 5)
     n0 = len(rep.direct)
-    for ns, nt in ([(120, 3000)] if tier != "thorough" else [(120, 3000), (200, 4000), (60, 9000)]):
+    for ns, nt in ([(120, 3000)] if tier != "thorough" else [(120, 3000), (200, 4000), (60, 5000)]):
         foot = [(s, s, 0, 0) for s in range(ns)]
         trips = []
         for k in range(nt):
